@@ -43,7 +43,7 @@ def finite_choice(spec):
 def one(spec, batch, stats, lang=False):
     b = GR.build(spec)
     try:
-        decl = declared_grammar(list(b.classes.values()), b.start)
+        decl = GR.declared_from_spec(declared_grammar(list(b.classes.values()), b.start), spec)
         evs = []
         g0 = None
         for mode in (False, True):
